@@ -9,8 +9,9 @@ From VDrv Require Import Queue Handoff.
 Definition sum (l : list nat) : nat := fold_right Nat.add 0 l.
 Definition b2nat (b : bool) : nat := if b then 1 else 0.
 
-(** every queued command is worth 4 event handlings: start (1), the GPU's answer (2), completion (1) *)
-Definition cmdw (c : cmd) : nat := 4.
+(** every queued command is worth 5 event handlings: start (1), the tick that sends the request (1), the GPU's
+    answer (2), completion (1) *)
+Definition cmdw (c : cmd) : nat := 5.
 Definition is_enq (o : op) : nat := match o with OEnq _ _ => 1 | _ => 0 end.
 Definition is_drain (o : op) : nat := match o with ODrain _ => 1 | _ => 0 end.
 Definition opw (o : op) : nat := match o with OEnq _ _ => 2 | ODrain _ => 7 end.
@@ -36,16 +37,16 @@ Definition signals_left (s : state) : nat :=
 
 Definition eng_mp (e : option epc) : nat :=
   match e with
-  | Some (ERet true) | Some (ERetNotify _) | Some (EQ _ true) | Some (EQNotify _) | Some (EEnd true) => 1
+  | Some (ESend true) | Some (ERet true) | Some (ERetNotify _) | Some (EQ _ true) | Some (EQNotify _) | Some (EEnd true) => 1
   | _ => 0
   end.
 
 (** event handlings still to come *)
 Definition events_left (s : state) : nat :=
-  b2nat (tick s) + 2 * length (gpu s)
+  b2nat (tick s) + 3 * length (tosend s) + 2 * length (gpu s)
   + signals_left s + match ra s with RPause | RTick => 1 | _ => 0 end
   + sum (map (fun a => sum (map op_cmdw (a_prog a))) (apps s))
-  + sum (map (fun q => sum (map cmdw (q_cmds q)) - (if q_running q then 3 else 0)) (queues s))
+  + sum (map (fun q => sum (map cmdw (q_cmds q)) - (if q_running q then 4 else 0)) (queues s))
   + eng_mp (eng s) + b2nat (mw0 s).
 
 Definition appw (a : app) : nat :=
@@ -56,7 +57,7 @@ Definition engw (nq : nat) (e : option epc) : nat :=
   match e with
   | None => 0
   | Some EExit => 1 | Some EReturned => 2 | Some ECheck => 3 | Some ELock => 2 | Some EPop => 1
-  | Some (ERet _) => 2 * nq + 7 | Some (ERetNotify _) => 2 * nq + 6
+  | Some (ESend _) => 2 * nq + 8 | Some (ERet _) => 2 * nq + 7 | Some (ERetNotify _) => 2 * nq + 6
   | Some (EQ i _) => 5 + 2 * (nq - i) | Some (EQNotify i) => 4 + 2 * (nq - i)
   | Some (EEnd _) => 4
   end.
@@ -66,7 +67,7 @@ Definition local_left (s : state) : nat :=
 
 Definition rank (s : state) : nat :=
   (4 * length (apps s) + 1) * notifies_left s
-  + (2 * length (queues s) + 9) * events_left s
+  + (2 * length (queues s) + 10) * events_left s
   + 10 * signals_left s
   + local_left s.
 
